@@ -337,7 +337,8 @@ func VerifSnapshot(cc Cache) *VerifSnap {
 	s := &VerifSnap{Lru: verifLruID(&c.lru), Dir: c.dir, Cur: c.lru.currentSize, Resv: c.lru.reservedSize,
 		Unc: c.lru.uncompressedSize, N: len(c.lru.cache), EvqSize: c.lru.queuedEvictionsSize.Load(),
 		Max: c.lru.maxSize, HL: c.lru.maxSizeHardLimit}
-	for e := c.lru.ll.Front(); e != nil; e = e.Next() {
+	// (bounded: a list that has been corrupted into a cycle must not hang the observer)
+	for e := c.lru.ll.Front(); e != nil && len(s.Entries) <= 2*len(c.lru.cache)+64; e = e.Next() {
 		kv := e.Value.(*entry)
 		p := c.getElementPath(kv.key, kv.value)
 		if len(p) > len(c.dir) {
